@@ -288,6 +288,10 @@ class SrcEdit:
                     if starts_line and fpost:
                         put_lines = [re_empty_line_start.match(lines[copy_loc.ln]).group(0)]  # can use copy_loc.ln because if got this line there are never any preceding comments
 
+                elif fpost and ln == block_ln and block_col:  # statement follows the block open on the same line ('if a: b; \\\n c'), the block header must stay
+                    del_loc = fstloc(ln, block_col, bound_end_ln, bound_end_col)
+                    put_lines = [' ']
+
                 elif fpost:  # HACK FIX! TODO: this is shaky, only here because '\\\n stmt' does not work at module level col 0 even though it works inside indented blocks, otherwise `del_loc` above would be sufficient unconditionally, tail cases are annoying
                     del_loc = fstloc(ln, 0, bound_end_ln, bound_end_col)
                     put_lines = [ffirst._get_block_indent()]  # SHOULDN'T DO THIS HERE!!!
